@@ -349,6 +349,12 @@ func (c *ClientConn) maybePrepareAndExecute(request Request, raw *frame.RawFrame
 		maybeUnprepared = false
 	}
 
+	if _, isInternal := request.(*internalRequest); isInternal {
+		// The connection's own requests (heartbeats, the handshake, `USE`, system queries) aren't prepared statements and
+		// can't be re-executed after preparing: their response, an unprepared error included, is for the caller.
+		maybeUnprepared = false
+	}
+
 	if maybeUnprepared {
 		frm, err := c.getCodec().ConvertFromRawFrame(raw)
 		if err != nil {
